@@ -711,7 +711,7 @@ def custom_pad_left(lhs, rhs, other, ctx):
     (any, str, num) -> pad a on the left with b to length c
     (lst, any, any) -> vectorised
     """
-    if isinstance(lhs, LazyList):
+    if isinstance(lhs, (list, LazyList)):
         return vectorise(custom_pad_left, lhs, rhs, other)
     if isinstance(rhs, int):
         return lhs.ljust(rhs, other)
@@ -725,7 +725,7 @@ def custom_pad_right(lhs, rhs, other, ctx):
     (any, str, num) -> pad a on the right with b to length c
     (lst, any, any) -> vectorised
     """
-    if isinstance(lhs, LazyList):
+    if isinstance(lhs, (list, LazyList)):
         return vectorise(custom_pad_right, lhs, rhs, other)
     if isinstance(rhs, int):
         return lhs.rjust(rhs, other)
@@ -4548,14 +4548,14 @@ def zfiller(lhs, rhs, ctx):
     """Element ∆Z
     zfill to rhs
     """
-    ts = vy_type(lhs, rhs)
+    ts = vy_type(lhs, rhs, simple=True)
     return {
         (NUMBER_TYPE, str): lambda: rhs.zfill(lhs),
         (str, NUMBER_TYPE): lambda: lhs.zfill(rhs),
         (NUMBER_TYPE, list): lambda: [0 for i in range(max(0, lhs - len(rhs)))]
-        + rhs,
+        + list(rhs),
         (list, NUMBER_TYPE): lambda: [0 for i in range(max(0, rhs - len(lhs)))]
-        + lhs,
+        + list(lhs),
         (str, str): lambda: lhs.zfill(len(rhs)),
     }.get(ts, lambda: vectorise(zfiller, lhs, rhs, ctx=ctx))()
 
